@@ -295,6 +295,11 @@ func diffField(a, b Obs) string {
 
 func (p c14) check(sc *Scenario, acc *Acc, minimise bool) *Violation {
 	base := execC14(sc, sc.Replicas[0])
+	oh := uint64(1469598103934665603)
+	for _, o := range base.obs {
+		oh = hashStr(oh, o.Key())
+	}
+	acc.ObsHash[sc.Run] = oh
 	hashes := map[uint64]bool{base.hash: true}
 	anyMulti := len(base.multi) > 0
 	acc.Evals++
@@ -414,6 +419,9 @@ func c14SingleSite(sc *Scenario, rep Replica) (string, Replica, bool) {
 }
 
 func (p c14) signature(sc *Scenario, ri, d int) string {
+	if dd, _, _, _ := c14Diverges(sc, canonicalReplica); dd >= 0 {
+		return "differs-between-identical-executions:" + sc.Family
+	}
 	if rep := sc.Replicas[ri]; rep.Sched != 0 {
 		scand := canonicalReplica
 		scand.Sched, scand.Procs, scand.Preempt = rep.Sched, rep.Procs, rep.Preempt
@@ -454,7 +462,12 @@ func (p c14) minimise(orig *Scenario, ri, d int, v *Violation) *Violation {
 	hcand.History = true
 	scand := canonicalReplica
 	scand.Sched, scand.Procs, scand.Preempt = rep.Sched, rep.Procs, rep.Preempt
-	if dd, _, _, _ := c14Diverges(sc, scand); rep.Sched != 0 && dd >= 0 {
+	if dd, _, _, _ := c14Diverges(sc, canonicalReplica); dd >= 0 {
+		// two executions under IDENTICAL seams differ: something outside the seams (addresses,
+		// allocation state) reaches the output
+		sig = "differs-between-identical-executions:" + sc.Family
+		sc.Replicas[1] = canonicalReplica
+	} else if dd, _, _, _ := c14Diverges(sc, scand); rep.Sched != 0 && dd >= 0 {
 		sig = "goroutine-schedule:" + sc.Family
 		sc.Replicas[1] = scand
 	} else if dd, a, b, _ := c14Diverges(sc, hcand); rep.History && dd >= 0 {
